@@ -173,6 +173,7 @@ type ContractFile struct {
 	Funcs     []*FuncContract
 	Uses      []string // //@ use NAME lines: stdlib spec files to include
 	PureMethods []string // //@ puremethod NAME ...: interface methods assumed to be pure observers
+	Extracts    []*Extract // //@ extract ...: sections of repository functions wrapped, verbatim, as functions of their own
 	NonNil      []string // //@ nonnil NAME ...: package-level pointer variables assumed non-nil (initialised once in init)
 	Imports   []*ast.ImportSpec
 }
@@ -244,6 +245,38 @@ func ScanContractFile(path string, src []byte) (*ContractFile, error) {
 				return nil, err
 			}
 			cf.PureMethods = append(cf.PureMethods, strings.Fields(strings.ReplaceAll(body[len("puremethod"):], ",", " "))...)
+		case first == "extract":
+			if err := flush(); err != nil {
+				return nil, err
+			}
+			cur = nil
+			cf.Extracts = append(cf.Extracts, &Extract{Header: strings.TrimSpace(body[len("extract"):]), Line: i + 1})
+		case first == "xfrom" || first == "xstmt" || first == "xrewrite" || first == "xtail" || first == "xupto":
+			if len(cf.Extracts) == 0 {
+				return nil, fmt.Errorf("%s:%d: %s outside an extract block", path, i+1, first)
+			}
+			x := cf.Extracts[len(cf.Extracts)-1]
+			rest := strings.TrimSpace(body[len(first):])
+			switch first {
+			case "xfrom":
+				fs := strings.Fields(rest)
+				if len(fs) != 2 {
+					return nil, fmt.Errorf("%s:%d: xfrom FILE FUNC", path, i+1)
+				}
+				x.File, x.Func = fs[0], fs[1]
+			case "xstmt":
+				x.Stmt = rest
+			case "xrewrite":
+				ab := strings.SplitN(rest, "=>", 2)
+				if len(ab) != 2 {
+					return nil, fmt.Errorf("%s:%d: xrewrite OLD => NEW", path, i+1)
+				}
+				x.Rewrites = append(x.Rewrites, [2]string{strings.TrimSpace(ab[0]), strings.TrimSpace(ab[1])})
+			case "xtail":
+				x.Tail = rest
+			case "xupto":
+				x.Upto = rest
+			}
 		case first == "nonnil":
 			if err := flush(); err != nil {
 				return nil, err
@@ -1170,6 +1203,20 @@ func BuildContractSet(pkgDir, mirrorDir, stdlibDir string) (*ContractSet, error)
 			}
 		}
 	}
+	// sections of repository functions extracted as functions of their own (//@ extract)
+	for _, cf := range cs.Files {
+		for _, x := range cf.Extracts {
+			b, err := extractSource(pkgDir, cs.PkgName, x, cf.Imports)
+			if err != nil {
+				return nil, err
+			}
+			name := x.Header
+			if k := strings.Index(name, "("); k > 0 {
+				name = name[:k]
+			}
+			cs.Overlay[filepath.Join(pkgDir, "zz_verif_extract_"+sanitizeIdent(strings.TrimSpace(name))+".go")] = b
+		}
+	}
 	// generated clause functions, one gen file per contract file
 	for _, cf := range cs.Files {
 		var body strings.Builder
@@ -1186,6 +1233,122 @@ func BuildContractSet(pkgDir, mirrorDir, stdlibDir string) (*ContractSet, error)
 		cs.Overlay[filepath.Join(pkgDir, "zz_verif_gen_"+base+".go")] = []byte(out.String())
 	}
 	return cs, nil
+}
+
+// Extract is a section of a repository function that is wrapped, VERBATIM, as a function of its own so
+// that it can carry a contract (the enclosing function being outside the verifier's reach):
+//
+//	//@ extract NAME(params) (results)
+//	//@ xfrom FILE FUNC            FUNC: Name, (*T).Name or (T).Name
+//	//@ xstmt PREFIX               the first statement of FUNC (any depth) whose text starts with PREFIX
+//	//@ xupto PREFIX2              optional: ... and the sibling statements that follow it, up to and including the one starting with PREFIX2
+//	//@ xrewrite OLD => NEW        textual rewrites of the statement (return statements); OLD must occur
+//	//@ xtail STMT                 appended after the statement (e.g. `return nil`)
+//
+// The extraction is redone from the working tree on every run; everything of FUNC outside the
+// statement is dropped (and said so in the generated file).
+type Extract struct {
+	Header   string
+	File     string
+	Func     string
+	Stmt     string
+	Upto     string // optional: the section extends over the following sibling statements up to and including the one starting with this prefix
+	Rewrites [][2]string
+	Tail     string
+	Line     int
+}
+
+// extractSource builds the overlay file of one extract directive.
+func extractSource(pkgDir, pkgName string, x *Extract, extraImports []*ast.ImportSpec) ([]byte, error) {
+	path := filepath.Join(pkgDir, x.File)
+	src, err := os.ReadFile(path)
+	if err != nil {
+		return nil, fmt.Errorf("extract %s: %v", x.Header, err)
+	}
+	fset := token.NewFileSet()
+	f, err := parser.ParseFile(fset, path, src, parser.ParseComments)
+	if err != nil {
+		return nil, fmt.Errorf("extract %s: %v", x.Header, err)
+	}
+	var fd *ast.FuncDecl
+	for _, d := range f.Decls {
+		g, ok := d.(*ast.FuncDecl)
+		if !ok || g.Body == nil {
+			continue
+		}
+		key := g.Name.Name
+		if g.Recv != nil && len(g.Recv.List) == 1 {
+			var sb strings.Builder
+			printer.Fprint(&sb, fset, g.Recv.List[0].Type)
+			key = "(" + sb.String() + ")." + key
+		}
+		if key == x.Func {
+			fd = g
+		}
+	}
+	if fd == nil {
+		return nil, fmt.Errorf("extract %s: function %s not found in %s", x.Header, x.Func, x.File)
+	}
+	norm := func(t string) string { return strings.Join(strings.Fields(t), " ") }
+	want := norm(x.Stmt)
+	var stmt ast.Stmt
+	var siblings []ast.Stmt
+	stmtText := func(st ast.Stmt) string {
+		return string(src[fset.Position(st.Pos()).Offset:fset.Position(st.End()).Offset])
+	}
+	ast.Inspect(fd.Body, func(n ast.Node) bool {
+		if stmt != nil {
+			return false
+		}
+		var list []ast.Stmt
+		switch b := n.(type) {
+		case *ast.BlockStmt:
+			list = b.List
+		case *ast.CaseClause:
+			list = b.Body
+		case *ast.CommClause:
+			list = b.Body
+		}
+		for k, st := range list {
+			if strings.HasPrefix(norm(stmtText(st)), want) {
+				stmt = st
+				siblings = list[k:]
+				return false
+			}
+		}
+		return true
+	})
+	if stmt == nil {
+		return nil, fmt.Errorf("extract %s: no statement of %s starts with %q (the section the contract is about is gone)", x.Header, x.Func, x.Stmt)
+	}
+	last := stmt
+	if x.Upto != "" {
+		last = nil
+		for _, st := range siblings {
+			if strings.HasPrefix(norm(stmtText(st)), norm(x.Upto)) {
+				last = st
+				break
+			}
+		}
+		if last == nil {
+			return nil, fmt.Errorf("extract %s: no statement after %q in the same block starts with %q", x.Header, x.Stmt, x.Upto)
+		}
+	}
+	body := string(src[fset.Position(stmt.Pos()).Offset:fset.Position(last.End()).Offset])
+	for _, rw := range x.Rewrites {
+		if !strings.Contains(body, rw[0]) {
+			return nil, fmt.Errorf("extract %s: rewrite pattern %q does not occur in the extracted statement", x.Header, rw[0])
+		}
+		body = strings.ReplaceAll(body, rw[0], rw[1])
+	}
+	code := "func " + x.Header + " {\n\t" + body + "\n\t" + x.Tail + "\n}\n"
+	var out strings.Builder
+	out.WriteString("//go:build verif\n\n// Extracted MECHANICALLY by govc from " + x.File + ", function " + x.Func + " (the statement starting `" + x.Stmt + "`),\n")
+	out.WriteString("// verbatim except for the listed rewrites of return statements; everything else of that function is dropped. DO NOT EDIT.\n\n")
+	out.WriteString("package " + pkgName + "\n\n")
+	out.WriteString(importsUsed(append(append([]*ast.ImportSpec{}, f.Imports...), extraImports...), code))
+	out.WriteString("\n" + code)
+	return []byte(out.String()), nil
 }
 
 // AllFuncs lists all contract blocks.
